@@ -214,13 +214,21 @@ func (r *Run) Finish(verifDir string, cmd string) int {
 	if r.selftest != nil {
 		cov["selftest"] = r.selftest
 	}
+	if r.trusted == nil {
+		r.trusted = []string{"Go type checker and go/ssa construction (golang.org/x/tools v0.29.0)"}
+		cov["trusted_base"] = r.trusted
+	}
+	assume := append([]string{"dependencies are the versions pinned in /repo/go.sum (cannot change offline)", "production wiring is what cmd/omniwitness and cmd/feedbastion build"}, r.assume...)
+	for _, t := range r.trusted {
+		assume = append(assume, "trusted: "+t)
+	}
 	ev := map[string]any{
 		"property_id": r.Prop,
 		"tier":        r.Tier,
 		"seed":        r.Seed,
 		"level":       "other",
 		"coverage":    cov,
-		"assumptions": r.assume,
+		"assumptions": assume,
 		"wall_s":      time.Since(r.start).Seconds(),
 		"violations":  nviol,
 	}
